@@ -168,20 +168,32 @@ func c13Case(side string, interval time.Duration, threshold int, pattern string,
 			parkedDone = time.Since(t0)
 			return nil, hctx.Err()
 		})
-		ss, err := s.Connect(ctx, sessT, nil)
+		cctx, release := context.WithCancel(ctx)
+		ss, err := s.Connect(cctx, sessT, nil)
 		if err != nil {
+			release()
 			return obs, "connect: " + err.Error(), "c13 connect-failed"
 		}
+		if pendingKind == "connect-ctx-released" {
+			release() // the context given to Connect is for connecting; the session outlives it
+		}
+		defer release()
 		sess = ss
 		if pendingKind != "no-initialize" {
 			<-handshake
 		}
 	} else {
 		c := NewClient(&Implementation{Name: "cli", Version: "1"}, &ClientOptions{KeepAlive: interval, KeepAliveFailureThreshold: threshold, Logger: quietLogger})
-		cs, err := c.Connect(ctx, sessT, &ClientSessionOptions{ProtocolVersion: "2025-06-18"})
+		cctx, release := context.WithCancel(ctx)
+		cs, err := c.Connect(cctx, sessT, &ClientSessionOptions{ProtocolVersion: "2025-06-18"})
 		if err != nil {
+			release()
 			return obs, "connect: " + err.Error(), "c13 connect-failed"
 		}
+		if pendingKind == "connect-ctx-released" {
+			release() // ctx, cancel := context.WithTimeout(...); defer cancel() around Connect is the usual idiom
+		}
+		defer release()
 		sess = cs
 	}
 	go func() {
@@ -533,7 +545,7 @@ func TestVerifC13(t *testing.T) {
 	// (server+pending-no-initialize / no-initialized: the peer has connected but never sends initialize,
 	// or never follows it with notifications/initialized - a peer that hangs or dies during the handshake
 	// is a peer that stops answering like any other)
-	for _, side := range []string{"server", "client", "server+pending-call", "client+pending-call", "server+pending-handler", "server+pending-no-initialize", "server+pending-no-initialized"} {
+	for _, side := range []string{"server", "client", "server+pending-call", "client+pending-call", "server+pending-handler", "server+pending-no-initialize", "server+pending-no-initialized", "client+pending-connect-ctx-released", "server+pending-connect-ctx-released"} {
 		pendingKind := ""
 		if i := strings.Index(side, "+pending-"); i >= 0 {
 			pendingKind = side[i+len("+pending-"):]
